@@ -126,6 +126,7 @@ static void gen_roundtrip(G &g, bool isal) {
     if (g.world.chance(1, 20)) c.ct = 3;   // CHKSUM_MD5: accepted by create, no checksum is computed for it
     if (g.world.chance(1, 10)) c.w = isal ? 8 : 0;
     if (isal && g.world.chance(1, 8)) { static const int ws[] = {8, 16, 32}; c.w = ws[g.world.below(3)]; }   // accepted word sizes
+    bool isal_faults = isal && g.world.chance(1, 3);
     g.ops.push(create_op(0, c));
     bool free_run = g.world.chance(1, 4);  // fault-free configuration, run separately
     // a bystander: a second live instance (same backend family more often than not, other shape) that is used with the
@@ -157,8 +158,9 @@ static void gen_roundtrip(G &g, bool isal) {
                 }
             }
             Json j = mk("GET"); j.set("obj", o).set("slot", 0).set("force", g.faults.chance(1, 3) ? 1 : 0).set("dl", delivery(g, s, c.n(), !free_run));
+            if (isal_faults && g.faults.chance(1, 2)) { Json f = mk("ISAL"); f.set("fail_at", (int) g.faults.range(1, 2)).set("clobber", (int) g.faults.below(2)); g.ops.push(f); g.ops.push(j); }   // dependency reports a singular matrix, then the same call again
             g.ops.push(j);
-            if (g.plan.chance(1, 8)) g.ops.push(j);   // the same call again: results must not depend on what a previous call left behind
+            if (g.plan.chance(1, 8) || isal_faults) g.ops.push(j);   // the same call again: results must not depend on what a previous call left behind
         }
         int reps = (int) g.plan.range(1, 3);
         for (int i = 0; i < reps; i++) {
@@ -170,8 +172,9 @@ static void gen_roundtrip(G &g, bool isal) {
             else if (x < 17 || g.prop == "C01" || g.prop == "C19") dest = (int) g.plan.below(c.n());
             else { static const int bad[] = {-1, 0, 1, 2, INT32_MAX, INT32_MIN}; int b = bad[g.plan.below(6)]; dest = (b >= 0 && b <= 2) ? c.n() + b : b; }
             j.set("dest", dest).set("oal", pick_al(g.faults)).set("dl", delivery(g, s, c.n(), !free_run));
+            if (isal_faults && g.faults.chance(1, 2)) { Json f = mk("ISAL"); f.set("fail_at", 1).set("clobber", (int) g.faults.below(2)); g.ops.push(f); g.ops.push(j); }
             g.ops.push(j);
-            if (g.plan.chance(1, 8)) g.ops.push(j);
+            if (g.plan.chance(1, 8) || isal_faults) g.ops.push(j);
         }
     }
     if (g.plan.chance(1, 2)) { Json d = mk("DESTROY"); d.set("slot", 0); g.ops.push(d); }
@@ -314,6 +317,7 @@ static void gen_c06(G &g, bool isal) {
         if (r.chance(1, 2)) nr = 1;
         Json j = mk("PLAN"); j.set("slot", 0).set("obj", 0).set("confirm", r.chance(1, 2) ? 1 : 0);
         j.set("R", Json::ints(std::vector<int>(v.begin(), v.begin() + nr))).set("X", Json::ints(std::vector<int>(v.begin() + nr, v.end())));
+        if (r.chance(1, 8) && tot <= tol) j.set("dupX", Json::ints({v[r.below((u64) nr)]}));   // an index to rebuild that is also named in the exclude list
         g.ops.push(j);
     }
 }
@@ -561,6 +565,16 @@ static void gen_c20(G &g) {
                 fx.push(fx_field(f, v, (int) r.range(1, 2))); }
             else if (y < 9) { fx = Json::arr(); Json f = fx1("misdirect"); f.set("obj", 1).set("dev", (i64) r.below(n)); fx.push(f); }
             else fx = header_damage(g, 0, false);
+            if (r.chance(1, 4)) {
+                // damage that leaves the fragment valid: it must still be used (stored mismatch flag on an intact payload,
+                // older writer version, padding bits, historical CRC seal)
+                fx = Json::arr(); unsigned z = (unsigned) r.below(5);
+                if (z == 0) fx.push(fx_field("mismatch", 1, (int) r.range(1, 2)));
+                else if (z == 1) { static const u32 ov[] = {0x010200, 0x010300, 0x010603, 0x010100, 0x010000}; fx.push(fx_field("libver", ov[r.below(5)], (int) r.below(3))); }
+                else if (z == 2) fx.push(fx_flip((i64) (ref::OFF_PAD * 8 + r.below(72))));
+                else if (z == 3) fx.push(fx1("legacyseal"));
+                else fx.push(fx_field("mismatch", 0, 2));
+            }
             for (auto &e : dl.a) if (e["dev"].in() == sv[q]) e.set("fx", fx);
         }
         Json j = mk("GET"); j.set("obj", 0).set("slot", 0).set("force", r.chance(9, 10) ? 1 : 0).set("dl", dl);
@@ -576,6 +590,7 @@ Json gen_plan(const std::string &prop, const std::string &tier, u64 base_seed, u
     Json plan = Json::obj();
     plan.set("prop", prop).set("tier", tier).set("base_seed", (i64) base_seed).set("index", (i64) index).set("run_seed", hex64(rs));
     plan.set("xor", (index & 1) ? "portable" : "sse2");
+    { Json ik = Json::obj(); ik.set("clobber", (int) g.world.below(2)).set("layout", (int) g.world.below(2)); plan.set("isal", ik); }   // stub behaviour for this run
     if (prop == "C01" || prop == "C03") gen_roundtrip(g, false);
     else if (prop == "C19") { if (index % 4 == 3) gen_c06(g, true); else gen_roundtrip(g, true); }
     else if (prop == "C02") gen_c02(g);
